@@ -4,6 +4,7 @@
 // the kernel.
 #include "vclock.h"
 #include <atomic>
+#include <cerrno>
 #include <ctime>
 #include <unistd.h>
 #include <sys/syscall.h>
@@ -21,7 +22,11 @@ namespace vclock
     void set_delta_ns(long long ns) { g_delta_ns.store(ns); }
     long long queries() { return g_queries.load(); }
     void enable(bool flag) { g_enabled.store(flag); }
-    void reset() { g_now_ns.store(BASE_NS); g_delta_ns.store(1000); g_queries.store(0); }
+    static std::atomic<long long> g_sleeps{ 0 };
+    static std::atomic<long long> g_slept_ns{ 0 };
+    long long sleeps() { return g_sleeps.load(); }
+    long long slept_ns() { return g_slept_ns.load(); }
+    void reset() { g_now_ns.store(BASE_NS); g_delta_ns.store(1000); g_queries.store(0); g_sleeps.store(0); g_slept_ns.store(0); }
 }
 
 extern "C" int clock_gettime(clockid_t id, struct timespec* ts)
@@ -36,4 +41,37 @@ extern "C" int clock_gettime(clockid_t id, struct timespec* ts)
         return 0;
     }
     return (int)syscall(SYS_clock_gettime, id, ts);
+}
+
+// Virtual sleeping: code under test that blocks in nanosleep / clock_nanosleep (std::this_thread::sleep_for / sleep_until are
+// inline wrappers around nanosleep) does not wait in real time; the virtual clock jumps by the requested time instead, so that a
+// run which sleeps past its deadline shows the overrun in virtual time. The harness' own waits use usleep / sched_yield, which
+// libc resolves internally and which therefore stay real.
+extern "C" int nanosleep(const struct timespec* req, struct timespec* rem)
+{
+    if (req && vclock::g_enabled.load(std::memory_order_relaxed))
+    {
+        long long ns = (long long)req->tv_sec * 1000000000LL + req->tv_nsec;
+        if (ns > 0) vclock::g_now_ns.fetch_add(ns);
+        vclock::g_sleeps.fetch_add(1);
+        vclock::g_slept_ns.fetch_add(ns > 0 ? ns : 0);
+        if (rem) { rem->tv_sec = 0; rem->tv_nsec = 0; }
+        return 0;
+    }
+    return (int)syscall(SYS_nanosleep, req, rem);
+}
+extern "C" int clock_nanosleep(clockid_t id, int flags, const struct timespec* req, struct timespec* rem)
+{
+    if (req && id == CLOCK_REALTIME && vclock::g_enabled.load(std::memory_order_relaxed))
+    {
+        long long t = (long long)req->tv_sec * 1000000000LL + req->tv_nsec;
+        long long ns = (flags & TIMER_ABSTIME) ? t - vclock::g_now_ns.load() : t;
+        if (ns > 0) vclock::g_now_ns.fetch_add(ns);
+        vclock::g_sleeps.fetch_add(1);
+        vclock::g_slept_ns.fetch_add(ns > 0 ? ns : 0);
+        if (rem) { rem->tv_sec = 0; rem->tv_nsec = 0; }
+        return 0;
+    }
+    long r = syscall(SYS_clock_nanosleep, id, flags, req, rem);
+    return r == 0 ? 0 : errno;
 }
